@@ -330,7 +330,14 @@ def rand_filt(rng, n, rl=None):
             "pw_limit": 900}
 
 
-def rand_res(rng, n):
+def noncubic_box(rng, lo, hi, cap):
+    while True:
+        n = rand_box(rng, lo, hi, cap=cap)
+        if len(set(n)) == 3:
+            return n
+
+
+def rand_res(rng, n, filt=None):
     """Resolution + pixel size aimed (loosely) at cutoffs 1..N/2; TLC computes the pixel count and rejects ties."""
     px100 = rng.randint(50, 1000)
     top = max(n) // 2
@@ -338,7 +345,7 @@ def rand_res(rng, n):
     def res_for():
         x = rng.uniform(0.6, top + 0.4)
         return max(1, int(round(n[0] * px100 / x)))
-    filt = rng.choice(["lowpass", "highpass", "bandpass"])
+    filt = filt or rng.choice(["lowpass", "highpass", "bandpass"])
     t = {"kind": "res", "n": n, "px100": px100, "res100": res_for(), "filt": filt, "mseed": rng.randrange(2 ** 31)}
     if filt == "bandpass":
         t["hres100"] = res_for()
@@ -435,8 +442,8 @@ def run(ctx):
             # the extreme soft edge: r = 4 sigma + 1 (One = {DC}) and r = N/2 with the widest edge
             cases.append({"kind": "filt", "n": [34, 20, 18], "rl": 17, "fl": 16, "rh": 9, "fh": 8, "mseed": rng.randrange(2 ** 31),
                           "pw_limit": 0})
-            for _ in range(10):
-                cases.append(rand_res(rng, rand_box(rng, 8, 20, cap=4000)))
+            for i in range(24):     # edge = first axis: boxes with three different sizes, every filter in turn
+                cases.append(rand_res(rng, noncubic_box(rng, 8, 20, 3000), filt=["lowpass", "highpass", "bandpass"][i % 3]))
         else:
             for _ in range(10):
                 n = rand_box(rng, 8, 40, cap=20000)
@@ -449,7 +456,7 @@ def run(ctx):
                 c["pw_limit"] = 0
                 cases.append(c)
             cases.append({"kind": "filt", "n": [40, 40, 40], "rl": 17, "fl": 16, "rh": 13, "fh": 12, "mseed": 5, "pw_limit": 0})
-            for _ in range(120):
-                cases.append(rand_res(rng, rand_box(rng, 8, 32, cap=12000)))
+            for i in range(150):
+                cases.append(rand_res(rng, noncubic_box(rng, 8, 32, 12000), filt=["lowpass", "highpass", "bandpass"][i % 3]))
             cases.append(rand_res(rng, [48, 48, 48]))
         run_traces(ctx, cases, batch=ctx.pick(40, 30))
